@@ -110,7 +110,9 @@ def _adversarial(t: str) -> st.SearchStrategy:
     if t == "bool":
         return V.choice(V.objects("truth"), V.objects("any"), _num_edges(), st.just({"k": "list", "items": []}))
     if t == "str":
-        return V.choice(V.strs(), strs_tuple, strs_tuple, V.bytess(), V.objects("container", payload=V.strs(2)))
+        mixed = st.tuples(V.strs(1), V.choice(V.nones(), V.ints(), V.bytess(2))).map(
+            lambda t: {"k": "tuple", "items": [{"k": "str", "v": ""}, t[0], t[1]]})  # "" matches every string
+        return V.choice(V.strs(), strs_tuple, strs_tuple, mixed, V.bytess(), V.objects("container", payload=V.strs(2)))
     if t == "list":
         return V.choice(V.iterators(elem), V.iterators(elem), V.containers(elem, depth=1), V.objects("container", payload=elem),
                         V.ranges(), st.lists(_num_edges(), max_size=4).map(lambda xs: {"k": "list", "items": xs}))
@@ -163,6 +165,22 @@ def _tmpl_cases() -> st.SearchStrategy:
     strs_tuple = st.lists(V.strs(3), max_size=3).map(lambda xs: {"k": "tuple", "items": xs})
     prefix = V.choice(V.strs(3), strs_tuple, strs_tuple, st.just({"k": "tuple", "items": []}), V.ints(), V.bytess(),
                       st.just({"k": "tuple", "items": [{"k": "str", "v": "a"}, {"k": "int", "v": 1}]}))
+    # a tuple of affixes in which a non-str element sits BEHIND an element that matches: the original short-circuits and
+    # returns True, so anything that touches the later elements (the seeding hook) must not raise
+    junk = V.choice(V.nones(), V.ints(), V.bytess(2), V.floats(), st.just({"k": "tuple", "items": [{"k": "str", "v": "a"}]}),
+                    st.just({"k": "list", "items": []}))
+
+    def affix_pair(at_end: bool) -> st.SearchStrategy:
+        def build(t: tuple) -> list:
+            text, cut, before, bad, after = t
+            word = text["v"]
+            cut = min(cut, len(word))
+            match = {"k": "str", "v": (word[len(word) - cut:] if at_end else word[:cut]) if cut else ""}
+            return [text, {"k": "tuple", "items": [*before, match, *bad, *after]}]
+
+        return st.tuples(V.strs(), st.integers(0, 3), st.lists(V.strs(2), max_size=1), st.lists(junk, min_size=1, max_size=2),
+                         st.lists(V.choice(V.strs(2), junk), max_size=1)).map(build)
+
     truth = V.choice(V.objects("truth"), V.objects("truth"), V.objects("any"), num, V.containers(elem, depth=1), V.strs(),
                      V.iterators(elem))
     key = V.choice(st.integers(-2, 4).map(lambda v: {"k": "int", "v": v}), V.strs(2), V.slices(), num, cmpo, V.hashable_objects())
@@ -186,6 +204,8 @@ def _tmpl_cases() -> st.SearchStrategy:
         call("t_subscr", V.choice(V.containers(elem, depth=1), V.objects("container", payload=elem), V.strs(), V.bytess()), key),
         call("t_subscr", V.containers(elem, depth=1), key),
         call("t_startswith", V.strs(), prefix), call("t_startswith", V.strs(), prefix), call("t_endswith", V.strs(), prefix),
+        call2("t_startswith", affix_pair(False)), call2("t_startswith", affix_pair(False)),
+        call2("t_endswith", affix_pair(True)), call2("t_endswith", affix_pair(True)),
         call("t_strpred", V.choice(V.strs(), V.strs(), V.bytess(), V.ints())),
         call("t_attr", box), call("t_attr", box), call("t_attr_store", box, num),
         call("t_match", anyv), call("t_match", V.containers(elem, depth=1)),
